@@ -15,6 +15,8 @@ Command-line glue of two commands of property C11 whose bytes are a function of 
   input and the first alignment of the file: as many rows, and every row of the input has a row of the same name
   and the same (case-sensitive) sequence in the file; the order of the rows does not matter.
 
+* `goalign stats nalign -p`: the number of alignments of a Phylip input.
+
 Needs the format facts: only the C11 oracle and the complete one link it.
 -/
 namespace Gv.Oracle.CliDivideOps
@@ -102,8 +104,22 @@ def expectedIdentical (rows : Rows) (stdin : String) (files : List (String × St
     if !wellFormed comp then some "rc=1 out= files=" else
     some ("rc=0 out=" ++ (if identicalRows rows comp then "true" else "false") ++ "| files=")
 
+/-- `goalign stats nalign -p` (cmd/nalign.go): the number of alignments the Phylip parser model delivers; an input that
+ends with an error gives a failing status (the count is printed first; the driver blanks the output of a failing run) -/
+def expectedNalignPhylip (stdin : String) : Option String :=
+  let bs := bytesOfString (stdin.replace "|" "\n")
+  if bs.any (· ≥ 128) then none else
+  match Fmt.Phylip.parseMulti Gen.FmtFacts.phylip_allocates_from_header {} (bs.length + 2) { inp := bs } [] with
+  | .done als ok => if als.isEmpty then none else some (if ok then "rc=0 out=" ++ toString als.length ++ "|" else "rc=1 out=")
+  | _ => none
+
 def handle : Handler := fun op args impl =>
   match op, args with
+  | "cli_lib", [stdin, "stats", "nalign", p] =>
+    if p != "-p" && p != "--phylip" then none else
+    match expectedNalignPhylip stdin with
+    | some m => some ⟨m, verdictOf (impl == m) "command-line-differs-from-library-model"⟩
+    | none => some ⟨"unmodelled", "na"⟩
   | "cli_libf", stdin :: _ :: "divide" :: fl =>
     match expectedDivide stdin fl with
     | some m => some ⟨m, verdictOf (impl == m) "command-line-differs-from-library-model"⟩
